@@ -132,6 +132,15 @@ fn gen_variant(rng: &mut Rng, payload_vcf: &[u8], l1: bool, thorough: bool) -> V
             v.label = "layout".into();
             v.container = *rng.pick(&[Container::VcfGz, Container::Bcf]);
             v.layout = layout_for(rng, v.container);
+            if rng.chance(1, 10) {
+                // a long run of empty blocks (valid BGZF; e.g. flushes of an idle writer): lengths
+                // around what fits into 8 KiB and 64 KiB of input, before or after the first block
+                let run = *rng.pick(&[100usize, 292, 293, 600, 2338, 2339, 2340, 2400, 5000]);
+                let at = if rng.chance(1, 2) { 0 } else { 1.min(v.layout.blocks.len()) };
+                for _ in 0..run {
+                    v.layout.blocks.insert(at, 0);
+                }
+            }
         }
         2 => {
             v.label = "threads".into();
